@@ -837,6 +837,17 @@ class StackWorld(object):
       if None in (pool, held, free, start, nxt) or sink.state != ChannelState.Open:
         continue
       REC.probe('tag_accounting_checked')
+      # ... and a tag is only held while the peer has not answered its request
+      conn = getattr(getattr(getattr(getattr(sink, '_socket', None), '_socket', None), 'handle', None), 'conn', None)
+      if conn is not None and conn.state and not (conn.dead or conn.silent or conn.was_silent or conn.s2c) \
+          and not self.cfg.get('adversarial') and not any(s.muted for s in self.servers):
+        outstanding = set(conn.state.get('unanswered', {}))
+        outstanding.update(r.tag for r in conn.state.get('shadowed', ()))
+        stale = sorted(t for t in held if t not in outstanding)
+        if stale:
+          REC.violation('C11', 'tag_held_after_answer',
+                        '%s: tag(s) %s are still reserved although the peer has answered every request that carried them' % (
+                          getattr(sink, '_socket_source', '?'), stale[:5]))
       if nxt - start != len(free) + len(held):
         REC.violation('C11', 'tag_accounting',
                       '%s: %d tags handed out so far, %d free, %d held by unanswered requests' % (
